@@ -54,6 +54,7 @@ Prods == <<
   [name |-> "lookupj", toks |-> <<H, ".", "j">>, defs |-> <<N>>],
   [name |-> "label", toks |-> <<H, ":", "K">>, defs |-> <<N>>],
   [name |-> "labels2", toks |-> <<H, ":", "K", ":", "K2">>, defs |-> <<N>>],
+  [name |-> "labelsdup", toks |-> <<H, ":", "K", ":", "K2", ":", "K">>, defs |-> <<N>>],
   [name |-> "esclabel", toks |-> <<H, ":", "`Odd Kind`">>, defs |-> <<N>>],
   [name |-> "esclookup", toks |-> <<H, ".", "`a.b`">>, defs |-> <<N>>],
   [name |-> "index", toks |-> <<H, "[", "0", "]">>, defs |-> <<L>>],
